@@ -60,7 +60,7 @@ func c14Values(tier string) [][]byte {
 	for i := range v2 {
 		v2[i] = byte(i * 7)
 	}
-	return [][]byte{[]byte("v1!"), v2}
+	return [][]byte{[]byte("v1!"), v2, {}} // 3 bytes, 4 KiB of all byte values, and the empty value
 }
 
 type c14Op struct {
@@ -360,22 +360,38 @@ func hashBytes(b []byte) uint32 { return strHash(string(b)) }
 
 func c14Scenarios(tier string) []c14Scenario {
 	n := len(c14Keys())
-	size := 3
-	if tier == "thorough" {
-		size = 4
-	}
+	// keys whose file names can interact (shared first fragment / boundary + extension)
+	prone := map[int]bool{2: true, 3: true, 6: true, 7: true, 8: true}
 	var subsets [][]int
-	var rec func(start int, cur []int)
-	rec = func(start int, cur []int) {
+	var rec func(size, start int, cur []int, keep func([]int) bool)
+	rec = func(size, start int, cur []int, keep func([]int) bool) {
 		if len(cur) == size {
-			subsets = append(subsets, append([]int{}, cur...))
+			if keep(cur) {
+				subsets = append(subsets, append([]int{}, cur...))
+			}
 			return
 		}
 		for i := start; i < n; i++ {
-			rec(i+1, append(cur, i))
+			rec(size, i+1, append(cur, i), keep)
 		}
 	}
-	rec(0, nil)
+	all := func([]int) bool { return true }
+	twoProne := func(s []int) bool {
+		c := 0
+		for _, k := range s {
+			if prone[k] {
+				c++
+			}
+		}
+		return c >= 2
+	}
+	if tier == "thorough" {
+		rec(3, 0, nil, all)      // every triple
+		rec(4, 0, nil, twoProne) // quadruples around the interacting keys
+	} else {
+		rec(2, 0, nil, all)      // every pair
+		rec(3, 0, nil, twoProne) // triples around the interacting keys
+	}
 	var out []c14Scenario
 	for _, b := range []string{"memcache", "fscache", "fscache-enc", "fscache+reopen", "fscache-api"} {
 		for _, s := range subsets {
